@@ -579,7 +579,7 @@ fn mutate(text: &str, muts: &[Mutation]) -> (String, Vec<&'static str>) {
                         if let Some(c) = get_child(p, &k, &ix) {
                             let shape: Option<Vec<u64>> = c.get("dim").and_then(|d| d.as_array()).map(|a| a.iter().filter_map(|d| d.as_u64()).collect());
                             if let (Some(shape), true) = (shape, c.get("data").map_or(false, |d| d.is_array())) {
-                                let count: u64 = shape.iter().product();
+                                let count: u64 = shape.iter().fold(1u64, |a, d| a.saturating_mul(*d));
                                 let new_shape: Vec<u64> = match (kind % 5, shape.len()) {
                                     (0, 2) => vec![1, count],
                                     (1, 2) => vec![count, 1],
